@@ -40,6 +40,61 @@ pub fn force_prove() -> bool {
     FORCE_PROVE.load(Ordering::SeqCst)
 }
 
+/// One operation performed on a Fiat-Shamir transcript through
+/// `TranscriptProtocol` (recorded only while tracing is on).
+#[derive(Debug, Clone, PartialEq, Eq)]
+pub struct TranscriptOp {
+    /// `new` | `message` | `u64` | `commitment` | `scalar` | `challenge`
+    pub kind: &'static str,
+    /// The label passed to the transcript.
+    pub label: Vec<u8>,
+    /// The absorbed bytes (for `challenge`: the 32 canonical bytes of the
+    /// squeezed scalar).
+    pub data: Vec<u8>,
+}
+
+#[cfg(feature = "std")]
+static TRANSCRIPT_TRACE: std::sync::Mutex<Option<Vec<TranscriptOp>>> =
+    std::sync::Mutex::new(None);
+
+/// Starts recording transcript operations (process-wide).
+#[cfg(feature = "std")]
+pub fn transcript_trace_start() {
+    *TRANSCRIPT_TRACE.lock().unwrap_or_else(|e| e.into_inner()) =
+        Some(Vec::new());
+}
+
+/// Stops recording and returns what was recorded.
+#[cfg(feature = "std")]
+pub fn transcript_trace_take() -> Vec<TranscriptOp> {
+    TRANSCRIPT_TRACE
+        .lock()
+        .unwrap_or_else(|e| e.into_inner())
+        .take()
+        .unwrap_or_default()
+}
+
+/// Hook called by the `TranscriptProtocol` implementation.
+#[allow(unused_variables)]
+pub(crate) fn trace_transcript_op(
+    kind: &'static str,
+    label: &[u8],
+    data: &[u8],
+) {
+    #[cfg(feature = "std")]
+    {
+        let mut guard =
+            TRANSCRIPT_TRACE.lock().unwrap_or_else(|e| e.into_inner());
+        if let Some(ops) = guard.as_mut() {
+            ops.push(TranscriptOp {
+                kind,
+                label: label.to_vec(),
+                data: data.to_vec(),
+            });
+        }
+    }
+}
+
 fn poly(coeffs: &[BlsScalar]) -> Polynomial {
     Polynomial::from_coefficients_vec(coeffs.to_vec())
 }
